@@ -8,6 +8,7 @@ ID = "C12"
 LEAN_TARGETS = ["ZmqVerif.Props.C12"]
 HWM = 131072
 SIZES = [1, 1000, 65536, 131060, 131072, 131073, 200000, 262144, 393216]
+ESCALATE_ROUNDS = 1  # extra seeded rounds of the random families when /repo differs from the validated baseline
 RULE = (
     "real PUB and XPUB with 1..3 scripted subscribers (all subscribed to everything) under scripted back-pressure: "
     "EXHAUSTIVE over stall points (credit in {0, 1, 9, 70000, 131072, 131080, 300000, inf} before the first publish) x "
